@@ -195,7 +195,16 @@ class Engine:
         v = self.unflatten(st, T, terms)
         return v
 
+    def check_fresh_write(self, st, ref_t, node, what):
+        "inside a loop declared writes='fresh' every write goes to an object allocated by this call"
+        if st.fresh_only is None or st.spec:
+            return
+        bound, exempt = st.fresh_only
+        self.prove(st, OR(ref_t >= bound, *[ref_t == e for e in exempt]), 'frame', node,
+                   'loop declared writes=fresh: %s goes to an object allocated by this call' % what)
+
     def store_field(self, st, ref, field, val, node=None):
+        self.check_fresh_write(st, ref.t, node, 'store to .%s' % field)
         owner, T = self.field_info(ref.cls, field, node)
         val = self.coerce(st, val, T, node, 'store to %s.%s' % (ref.cls, field))
         terms = self.flatten(st, T, val)
@@ -235,6 +244,7 @@ class Engine:
         return self.unflatten(st, l.elem, terms)
 
     def list_set(self, st, l, idx, val, node=None):
+        self.check_fresh_write(st, l.t, node, 'list write')
         val = self.coerce(st, val, l.elem, node, 'list element')
         terms = self.flatten(st, l.elem, val)
         for j, (sort, t) in enumerate(zip(slots(l.elem), terms)):
@@ -243,6 +253,7 @@ class Engine:
             self.hset(st, key, z3.Store(a, l.t, z3.Store(z3.Select(a, l.t), idx, t)))
 
     def list_set_len(self, st, l, n):
+        self.check_fresh_write(st, l.t, None, 'list resize')
         self.hset(st, LIST_LEN, z3.Store(self.harr(st, LIST_LEN, IntS), l.t, n))
 
     def new_list(self, st, elem, items, node=None):
@@ -276,16 +287,32 @@ class Engine:
             raise Unsupported('record type %s not declared' % name)
         return r
 
-    def rec_load(self, st, rv, key, node=None):
+    def rec_present(self, st, rv, key):
+        "is `key` present in the record? (always, for non-optional records)"
+        if rv.name not in REG.rec_optional:
+            return z3.BoolVal(key in self.rec_fields(rv.name))
+        if key not in self.rec_fields(rv.name):
+            return FALSE
+        return z3.Select(self.harr(st, ('$rec:' + rv.name, key + '?', 0), BoolS), rv.t)
+
+    def rec_set_present(self, st, rv, key, flag):
+        if rv.name in REG.rec_optional:
+            k = ('$rec:' + rv.name, key + '?', 0)
+            self.hset(st, k, z3.Store(self.harr(st, k, BoolS), rv.t, flag))
+
+    def rec_load(self, st, rv, key, node=None, check=True):
         flds = self.rec_fields(rv.name)
         if key not in flds:
             self.prove(st, FALSE, 'aorte', node, 'KeyError %r' % key)
             raise PathDead()
+        if check and rv.name in REG.rec_optional:
+            self.prove(st, self.rec_present(st, rv, key), 'aorte', node, 'KeyError %r' % key)
         T = parse_type(flds[key])
         terms = self.load_slots(st, '$rec:' + rv.name, key, T, rv.t)
         return self.unflatten(st, T, terms)
 
     def rec_store(self, st, rv, key, val, node=None):
+        self.check_fresh_write(st, rv.t, node, 'dict write')
         flds = self.rec_fields(rv.name)
         if key not in flds:
             raise Unsupported('store of new key %r into record %s' % (key, rv.name), node)
@@ -295,14 +322,51 @@ class Engine:
         for j, (sort, t) in enumerate(zip(slots(T), terms)):
             k = ('$rec:' + rv.name, key, j)
             self.hset(st, k, z3.Store(self.harr(st, k, sort), rv.t, t))
+        self.rec_set_present(st, rv, key, TRUE)
 
     def new_rec(self, st, name, items, node=None):
         r = st.alloc
         st.alloc = simp(st.alloc + 1)
         rv = VRec(name, r)
+        if name in REG.rec_optional:
+            for k in self.rec_fields(name):
+                self.rec_set_present(st, rv, k, FALSE)
         for k, v in items.items():
             self.rec_store(st, rv, k, v, node)
         return rv
+
+    def rec_update(self, st, dst, src, node=None):
+        "dst.update(src) for records"
+        for k in self.rec_fields(src.name):
+            if k not in self.rec_fields(dst.name):
+                self.prove(st, NOT(self.rec_present(st, src, k)), 'type', node,
+                           'update: key %r of %s is not a key of %s' % (k, src.name, dst.name))
+                continue
+            pres = simp(self.rec_present(st, src, k))
+            if is_false(pres):
+                continue
+            T = parse_type(self.rec_fields(dst.name)[k])
+            sv = self.coerce(st, self.rec_load(st, src, k, node, check=False), T, node, 'update key %r' % k)
+            if is_true(pres):
+                self.rec_store(st, dst, k, sv, node)
+                continue
+            dv = self.coerce(st, self.rec_load(st, dst, k, node, check=False), T, node, 'update key %r' % k)
+            new = [ITE(pres, a, b) for a, b in zip(self.flatten(st, T, sv), self.flatten(st, T, dv))]
+            for j, (sort, t) in enumerate(zip(slots(T), new)):
+                kk = ('$rec:' + dst.name, k, j)
+                self.hset(st, kk, z3.Store(self.harr(st, kk, sort), dst.t, t))
+            if dst.name in REG.rec_optional:
+                self.rec_set_present(st, dst, k, OR(pres, self.rec_present(st, dst, k)))
+
+    def const_to_rec(self, st, py, name, node=None):
+        from .execu import from_py
+        flds = self.rec_fields(name)
+        for k in py:
+            if k not in flds:
+                raise TypeMismatch('key %r is not a key of record %s' % (k, name))
+        if name not in REG.rec_optional and set(py) != set(flds):
+            raise TypeMismatch('dict %r does not have exactly the keys of %s' % (py, name))
+        return self.new_rec(st, name, {k: from_py(v) for k, v in py.items()}, node)
 
     # ---------------------------------------------------------------- typing
     def assume_type(self, st, T, v, guard=TRUE):
@@ -476,6 +540,16 @@ class Engine:
             if not alts:
                 raise PathDead()
             return mk_union(alts)
+        if k == 'rec' and isinstance(v, VConst) and isinstance(v.py, dict):
+            try:
+                return self.const_to_rec(st, v.py, T[1], node)
+            except TypeMismatch as e:
+                self.prove(st, FALSE, 'type', node, '%s: %s' % (why, e))
+                raise PathDead()
+        if k == 'rec' and isinstance(v, VRec) and v.name != T[1] and T[1] in REG.rec_optional:
+            new = self.new_rec(st, T[1], {}, node)
+            self.rec_update(st, new, v, node)
+            return new
         if not self._fits(v, T):
             self.prove(st, FALSE, 'type', node, '%s: value of kind %s is not %s' % (why, v.kind, type_str(T)))
             raise PathDead()
